@@ -10,8 +10,8 @@ package main
 import (
 	"context"
 	"encoding/base64"
-	"errors"
 	"encoding/json"
+	"errors"
 	"fmt"
 	"io"
 	"log"
@@ -49,10 +49,44 @@ type c13Op struct {
 	NilVals bool      `json:"nil_vals,omitempty"` // pass a nil map rather than an empty one
 	Version int       `json:"version,omitempty"`  // rollback target, 0 = previous
 	Fails   bool      `json:"fails,omitempty"`    // the cluster wait fails after the record was created
+	// Rel: which release the operation is about (0 = "rel", 1 = "rel2", 2 = "rel3"); releases share
+	// nothing but the storage and — when Share says so — the values map OBJECT the caller hands in.
+	Rel int `json:"rel,omitempty"`
+	// Share > 0: the values handed to this operation are the map object number Share of the case
+	// (c13Case.Shared[Share-1]): ONE Go map that the harness builds once and passes to every
+	// operation naming it, as an SDK caller does that parses its overrides once.  Vals then
+	// repeats the original content of that map (what model and oracle compute with).
+	Share int `json:"share,omitempty"`
 }
 
 type c13Case struct {
-	Ops []c13Op `json:"ops"`
+	Ops    []c13Op `json:"ops"`
+	Shared []vtree `json:"shared,omitempty"` // original content of the shared map objects
+}
+
+// c13NRel: release names of a case
+var c13Names = []string{"rel", "rel2", "rel3"}
+
+// vals: the ORIGINAL content of the values the caller supplies to operation o
+func (c c13Case) vals(o c13Op) vtree {
+	if o.Share > 0 && o.Share <= len(c.Shared) {
+		if c.Shared[o.Share-1] == nil {
+			return vtree{}
+		}
+		return c.Shared[o.Share-1]
+	}
+	return o.Vals
+}
+
+// nrel: number of releases the case talks about
+func (c c13Case) nrel() int {
+	n := 1
+	for _, o := range c.Ops {
+		if o.Rel+1 > n {
+			n = o.Rel + 1
+		}
+	}
+	return n
 }
 
 type c13Rev struct {
@@ -66,16 +100,25 @@ type c13Step struct {
 	OK  bool   `json:"ok"`
 	Err string `json:"err,omitempty"` // error text, for the replay file only (never compared)
 	// snapshots for the oracle
-	ValsMutated bool `json:"vals_mutated,omitempty"`
+	ValsMutated bool `json:"vals_mutated,omitempty"` // the supplied map is not deep-equal to its snapshot taken right before the call
+	// ValsIn: the content of the supplied map right before the call when that is no longer the
+	// original content (an earlier call wrote into the shared object); ValsOut: its content
+	// right after the call when the call changed it
+	ValsIn  vtree `json:"vals_in,omitempty"`
+	ValsOut vtree `json:"vals_out,omitempty"`
+	// NewConfig: Release.Config of the revision this step stored, copied right after the step
+	// (the final read-back shows whether a later operation disturbed it)
+	NewConfig vtree `json:"new_config,omitempty"`
+	Stored    bool  `json:"stored,omitempty"`
 	// the status of every stored revision right after this step (index = revision - 1)
 	Statuses []string `json:"statuses,omitempty"`
 }
 
 type c13Obs struct {
-	Steps []c13Step `json:"steps"`
-	Revs  []c13Rev  `json:"revs"`
-	Panic string    `json:"panic,omitempty"`
-	Bad   string    `json:"bad,omitempty"` // the probe could not be read back
+	Steps []c13Step  `json:"steps"`
+	Revs  [][]c13Rev `json:"revs"` // per release, in revision order
+	Panic string     `json:"panic,omitempty"`
+	Bad   string     `json:"bad,omitempty"` // the probe could not be read back
 }
 
 func (*c13) ID() string { return "C13" }
@@ -89,6 +132,7 @@ func (*c13) Rule() string {
 		"versions in half of the upgrades (mutated, or type-flipped: tables become scalars/lists and back); a third of the chains use a chart with 1-2 levels " +
 		"of subcharts (defaults of every level change, subcharts come and go, user sections for subcharts, scalars on subchart keys, globals); " +
 		"a quarter of the upgrades, 1/8 of the rollbacks and 1/15 of the installs FAIL after their record was created (injected wait error: the revision is stored as failed); rollbacks to the previous, an explicit earlier or a non-existent revision; " +
+		"a quarter of the chains hand ONE values map object (a shared overrides map with tables where the installed values have tables) to two or more of their operations, half of those chains over two releases; " +
 		"non-trivial = at least two revisions stored and at least one upgrade with a reuse flag or a rollback succeeded; distinct = hash of (case, observation)"
 }
 
@@ -137,6 +181,87 @@ func (*c13) Corpus() []any {
 		{Kind: "upgrade", Reuse: true, Chart: c13Chart("c", d2), Vals: vtree{"a": vtree{"now": "table"}}},
 		{Kind: "upgrade", Reuse: true, Chart: c13Chart("c", d1), Vals: vtree{"a": nil}},
 	}})
+	out = append(out, c13SharedCorpus()...)
+	out = append(out, c13RollbackCorpus()...)
+	return out
+}
+
+// c13SharedCorpus: ONE parsed overrides map handed to several upgrades — of the same release
+// and of a second one — with tables on both sides, in every flag mode (seeded C13-7: a
+// reuseValues that overlays onto a top-level copy only writes the deployed revision's nested
+// keys into the caller's nested tables; every later operation given that object then records
+// values that are neither the new ones nor its own release's).
+func c13SharedCorpus() []any {
+	d1 := vtree{"a": int64(1), "image": vtree{"tag": "0", "pullPolicy": "IfNotPresent"}, "t": vtree{"x": "d"}}
+	d2 := vtree{"a": int64(2), "image": vtree{"tag": "0", "repo": "r"}, "m": "new-default"}
+	over := func() vtree {
+		return vtree{"image": vtree{"tag": "2.0"}, "t": vtree{"y": "s", "deep": vtree{"k": "s"}}, "n": nil}
+	}
+	alpha := vtree{"image": vtree{"tag": "1.0", "pullPolicy": "Always"}, "replicas": int64(2), "t": vtree{"x": "u", "deep": vtree{"j": "alpha"}}, "n": "set"}
+	beta := vtree{"image": vtree{"tag": "0.9"}, "t": vtree{"z": "beta"}}
+	var out []any
+	up := func(rel int, f [3]bool, ch vtree) c13Op {
+		return c13Op{Kind: "upgrade", Rel: rel, Reset: f[0], Reuse: f[1], RTR: f[2], Chart: c13Chart("c", ch), Vals: over(), Share: 1}
+	}
+	for _, f := range [][3]bool{{false, true, false}, {false, false, true}, {false, true, true}, {true, true, false}, {true, false, true}, {true, true, true}, {true, false, false}, {false, false, false}} {
+		// two releases; the shared overrides go to alpha with flags f, to beta with reuse-values,
+		// to alpha again with reset-values / without flags, after a rollback with f again, and to
+		// beta with reset-then-reuse-values
+		out = append(out, c13Case{Shared: []vtree{over()}, Ops: []c13Op{
+			{Kind: "install", Rel: 0, Chart: c13Chart("c", d1), Vals: vtCopyMap(alpha)},
+			{Kind: "install", Rel: 1, Chart: c13Chart("c", d1), Vals: vtCopyMap(beta)},
+			up(0, f, d2),
+			up(1, [3]bool{false, true, false}, d2),
+			up(0, [3]bool{true, false, false}, d2),
+			up(0, [3]bool{false, false, false}, d1),
+			{Kind: "rollback", Rel: 0, Version: 1},
+			up(0, f, d1),
+			up(1, [3]bool{false, false, true}, d1),
+		}})
+		// one release only: flags f, then the same object with reset-values (the new values alone)
+		out = append(out, c13Case{Shared: []vtree{over()}, Ops: []c13Op{
+			{Kind: "install", Chart: c13Chart("c", d1), Vals: vtCopyMap(alpha)},
+			up(0, f, d2),
+			up(0, [3]bool{true, false, false}, d2),
+		}})
+	}
+	// the install itself is given the shared object (its record IS that map in the memory
+	// driver); a failing reuse-values upgrade in between; two shared objects
+	out = append(out, c13Case{Shared: []vtree{over(), {"t": vtree{"x": "second"}, "image": vtree{}}}, Ops: []c13Op{
+		{Kind: "install", Rel: 0, Chart: c13Chart("c", d1), Vals: over(), Share: 1},
+		{Kind: "install", Rel: 1, Chart: c13Chart("c", d2), Vals: vtCopyMap(alpha)},
+		{Kind: "upgrade", Rel: 1, Reuse: true, Chart: c13Chart("c", d2), Vals: over(), Share: 1, Fails: true},
+		{Kind: "upgrade", Rel: 1, RTR: true, Chart: c13Chart("c", d2), Vals: vtree{"t": vtree{"x": "second"}, "image": vtree{}}, Share: 2},
+		{Kind: "upgrade", Rel: 0, Reuse: true, Chart: c13Chart("c", d2), Vals: vtree{"t": vtree{"x": "second"}, "image": vtree{}}, Share: 2},
+		{Kind: "upgrade", Rel: 0, Chart: c13Chart("c", d2), Vals: over(), Share: 1},
+		{Kind: "upgrade", Rel: 1, Reset: true, Chart: c13Chart("c", d1), Vals: vtree{"t": vtree{"x": "second"}, "image": vtree{}}, Share: 2},
+	}})
+	return out
+}
+
+// c13RollbackCorpus: rollbacks to a revision whose chart differs from the deployed one, followed
+// by reuse-values upgrades (the defaults in force are now the ROLLBACK's, i.e. the target's);
+// failed rollbacks and failed upgrades in between (the deployed revision stays the older one);
+// every combination of the three flags after a rollback.
+func c13RollbackCorpus() []any {
+	d1 := vtree{"a": int64(1), "t": vtree{"x": "d1", "y": "d1"}, "only1": "d1"}
+	d2 := vtree{"a": int64(2), "t": vtree{"x": "d2", "z": "d2"}, "only2": "d2"}
+	d3 := vtree{"a": int64(3), "t": "scalar-now", "only3": "d3"}
+	var out []any
+	for _, f := range [][3]bool{{false, true, false}, {false, false, true}, {false, true, true}, {true, true, false}, {true, false, true}, {true, true, true}, {true, false, false}, {false, false, false}} {
+		out = append(out, c13Case{Ops: []c13Op{
+			{Kind: "install", Chart: c13Chart("c", d1), Vals: vtree{"a": int64(10), "t": vtree{"x": "u1"}}},
+			{Kind: "upgrade", Chart: c13Chart("c", d2), Vals: vtree{"a": int64(20), "t": vtree{"z": "u2"}, "k": "two"}},
+			{Kind: "upgrade", Chart: c13Chart("c", d3), Vals: vtree{"a": int64(30)}, Fails: true},
+			{Kind: "rollback", Version: 1}, // revision 4 = revision 1 (chart d1), deployed
+			{Kind: "upgrade", Reset: f[0], Reuse: f[1], RTR: f[2], Chart: c13Chart("c", d2), Vals: vtree{"t": vtree{"y": "u5"}}},
+			{Kind: "rollback", Version: 2, Fails: true}, // revision 6 = revision 2, failed: 5 stays deployed
+			{Kind: "upgrade", Reset: f[0], Reuse: f[1], RTR: f[2], Chart: c13Chart("c", d3), Vals: vtree{"k": nil, "extra": "e"}, Fails: true},
+			{Kind: "upgrade", Reset: f[0], Reuse: f[1], RTR: f[2], Chart: c13Chart("c", d3), Vals: vtree{}},
+			{Kind: "rollback", Version: 3}, // to the FAILED revision 3 (chart d3)
+			{Kind: "upgrade", Reuse: true, Chart: c13Chart("c", d1), Vals: vtree{"b": int64(1)}},
+		}})
+	}
 	return out
 }
 
@@ -302,7 +427,84 @@ func (*c13) Generate(r *rand.Rand, _ int) any {
 		c.Ops = append(c.Ops, op)
 		revs++
 	}
+	if r.Intn(4) == 0 {
+		c13Shareify(r, &c, userVals(base))
+	}
 	return c
+}
+
+// c13Shareify turns a chain into one whose caller parses its overrides once and hands the SAME
+// map object to several operations: a shared map (the values of one of the steps, or fresh
+// ones — made to have tables where the installed values have tables), at least two operations
+// given it, and in half of the cases a second release (installed somewhere before its first
+// operation, with values of its own) to which some of the later operations are redirected.
+func c13Shareify(r *rand.Rand, c *c13Case, fresh vtree) {
+	s := fresh
+	var cands []int
+	for i, o := range c.Ops {
+		if o.Kind != "rollback" && !o.NilVals && o.Vals != nil {
+			cands = append(cands, i)
+		}
+	}
+	if len(cands) > 0 && r.Intn(2) == 0 {
+		s = vtCopyMap(c.Ops[cands[r.Intn(len(cands))]].Vals)
+	}
+	inst := c.Ops[0].Vals
+	// tables on both sides: for the tables of the installed values, a table with other keys in s
+	for k, v := range inst {
+		if m, ok := v.(vtree); ok && r.Intn(2) == 0 {
+			if _, ok := s[k].(vtree); !ok {
+				s[k] = vtMutate(r, m, 2)
+			}
+		}
+	}
+	if len(s) == 0 || r.Intn(3) == 0 {
+		s[vtKey(r)] = vtGenMap(r, 1, 1+r.Intn(2))
+	}
+	c.Shared = []vtree{s}
+	second := r.Intn(2) == 0
+	if second {
+		// the second release is installed right after the first one, from the same chart,
+		// with values that overlap the shared map's
+		ins := c13Op{Kind: "install", Rel: 1, Chart: c13CopyChart(c.Ops[0].Chart), Vals: vtMutate(r, s, 3)}
+		for k, v := range s {
+			if m, ok := v.(vtree); ok && r.Intn(2) == 0 {
+				ins.Vals[k] = vtMutate(r, m, 2)
+			}
+		}
+		c.Ops = append([]c13Op{c.Ops[0], ins}, c.Ops[1:]...)
+	}
+	shared := 0
+	for i := range c.Ops {
+		o := &c.Ops[i]
+		if second && i >= 2 && r.Intn(3) == 0 {
+			o.Rel = 1
+			if o.Kind == "rollback" && o.Version > 1 {
+				o.Version = 1
+			}
+		}
+		if o.Kind == "rollback" || (o.Kind == "install" && (i > 0 || r.Intn(4) > 0)) {
+			continue
+		}
+		if r.Intn(3) > 0 {
+			o.Share, o.NilVals, o.Vals = 1, false, vtCopyMap(s)
+			shared++
+		}
+	}
+	// at least two operations are given the object
+	for i := len(c.Ops) - 1; i >= 0 && shared < 2; i-- {
+		if o := &c.Ops[i]; o.Kind == "upgrade" && o.Share == 0 {
+			o.Share, o.NilVals, o.Vals = 1, false, vtCopyMap(s)
+			shared++
+		}
+	}
+	if shared < 2 {
+		ch := c.Ops[0].Chart
+		for ; shared < 2; shared++ {
+			c.Ops = append(c.Ops, c13Op{Kind: "upgrade", Reuse: shared == 0, RTR: shared == 1, Chart: c13CopyChart(ch), Vals: vtCopyMap(s), Share: 1})
+		}
+		c.Ops = append(c.Ops, c13Op{Kind: "upgrade", Reset: true, Chart: c13CopyChart(ch), Vals: vtCopyMap(s), Share: 1})
+	}
 }
 
 func (*c13) Decode(raw json.RawMessage) (any, error) {
@@ -313,6 +515,15 @@ func (*c13) Decode(raw json.RawMessage) (any, error) {
 	for i := range c.Ops {
 		c.Ops[i].Vals = c04NormMap(c.Ops[i].Vals)
 		c04NormChart(c.Ops[i].Chart)
+		if c.Ops[i].Rel < 0 || c.Ops[i].Rel >= len(c13Names) {
+			return nil, fmt.Errorf("op %d: release index %d out of range", i, c.Ops[i].Rel)
+		}
+		if c.Ops[i].Share < 0 || c.Ops[i].Share > len(c.Shared) {
+			return nil, fmt.Errorf("op %d: shared map %d does not exist", i, c.Ops[i].Share)
+		}
+	}
+	for i := range c.Shared {
+		c.Shared[i] = c04NormMap(c.Shared[i])
 	}
 	return c, nil
 }
@@ -352,7 +563,28 @@ func c13ReadProbe(manifest string) (vtree, error) {
 	return m, nil
 }
 
-const c13Name = "rel"
+// c13History: the stored revisions of one release by version, and the highest version
+func c13History(cfg *action.Configuration, name string) (map[int]*c13RelPtr, int, error) {
+	rels, err := cfg.Releases.History(name)
+	byv := map[int]*c13RelPtr{}
+	mx := 0
+	for _, rl := range rels {
+		byv[rl.Version] = &c13RelPtr{Status: rl.Info.Status.String(), Config: rl.Config, Manifest: rl.Manifest}
+		if rl.Version > mx {
+			mx = rl.Version
+		}
+	}
+	if err != nil && len(rels) > 0 {
+		return byv, mx, err
+	}
+	return byv, mx, nil
+}
+
+type c13RelPtr struct {
+	Status   string
+	Config   map[string]interface{}
+	Manifest string
+}
 
 func (*c13) Execute(ci any) (res any) {
 	c := ci.(c13Case)
@@ -371,34 +603,53 @@ func (*c13) Execute(ci any) (res any) {
 	// its record was created, and the new revision is stored as failed
 	kc := &kubefake.FailingKubeClient{PrintingKubeClient: kubefake.PrintingKubeClient{Out: io.Discard}}
 	cfg.KubeClient = kc
+	// the shared map objects: built ONCE per case, handed to every operation that names them
+	shared := make([]map[string]interface{}, len(c.Shared))
+	for i, m := range c.Shared {
+		shared[i] = vtCopyMap(m)
+		if shared[i] == nil {
+			shared[i] = map[string]interface{}{}
+		}
+	}
+	stored := make([]int, c.nrel()) // revisions stored so far, per release
 	for _, o := range c.Ops {
+		if o.Rel < 0 || o.Rel >= len(c13Names) {
+			obs.Panic = fmt.Sprintf("release index %d out of range", o.Rel)
+			return obs
+		}
+		name := c13Names[o.Rel]
 		kc.WaitError = nil
 		if o.Fails {
 			kc.WaitError = errors.New("injected wait failure")
 		}
 		st := c13Step{}
+		orig := c.vals(o)
 		var vals map[string]interface{}
-		if !o.NilVals {
+		switch {
+		case o.Share > 0 && o.Share <= len(shared):
+			vals = shared[o.Share-1]
+		case !o.NilVals:
 			vals = vtCopyMap(o.Vals)
 			if vals == nil {
 				vals = map[string]interface{}{}
 			}
 		}
+		before := vtCopyMap(vals) // deep snapshot of the caller's map right before the call
 		var err error
 		switch o.Kind {
 		case "install":
 			in := action.NewInstall(cfg)
-			in.Namespace, in.ReleaseName = "default", c13Name
+			in.Namespace, in.ReleaseName = "default", name
 			_, err = in.RunWithContext(context.Background(), c13Build(o.Chart), vals)
 		case "upgrade":
 			up := action.NewUpgrade(cfg)
 			up.Namespace = "default"
 			up.ResetValues, up.ReuseValues, up.ResetThenReuseValues = o.Reset, o.Reuse, o.RTR
-			_, err = up.RunWithContext(context.Background(), c13Name, c13Build(o.Chart), vals)
+			_, err = up.RunWithContext(context.Background(), name, c13Build(o.Chart), vals)
 		case "rollback":
 			rb := action.NewRollback(cfg)
 			rb.Version = o.Version
-			err = rb.Run(c13Name)
+			err = rb.Run(name)
 		default:
 			obs.Panic = "unknown op " + o.Kind
 			return obs
@@ -410,55 +661,63 @@ func (*c13) Execute(ci any) (res any) {
 				st.Err = st.Err[:200]
 			}
 		}
-		if o.Kind != "rollback" && !vtEqual(vals, o.Vals) {
-			st.ValsMutated = true
-		}
-		if rels, err := cfg.Releases.History(c13Name); err == nil {
-			byv := map[int]string{}
-			mx := 0
-			for _, rl := range rels {
-				byv[rl.Version] = rl.Info.Status.String()
-				if rl.Version > mx {
-					mx = rl.Version
+		if o.Kind != "rollback" {
+			if !vtEqual(vals, before) {
+				st.ValsMutated = true
+				st.ValsOut = vtCopyMap(vals)
+			}
+			if !vtEqual(before, orig) {
+				st.ValsIn = before
+				if st.ValsIn == nil {
+					st.ValsIn = vtree{}
 				}
 			}
-			for v := 1; v <= mx; v++ {
-				st.Statuses = append(st.Statuses, byv[v])
+		}
+		byv, mx, _ := c13History(cfg, name)
+		for v := 1; v <= mx; v++ {
+			s := ""
+			if r := byv[v]; r != nil {
+				s = r.Status
+			}
+			st.Statuses = append(st.Statuses, s)
+		}
+		if mx == stored[o.Rel]+1 && byv[mx] != nil {
+			st.Stored = true
+			st.NewConfig = vtree{}
+			if byv[mx].Config != nil {
+				st.NewConfig = vtNorm(vtCopyMap(byv[mx].Config)).(vtree)
 			}
 		}
+		stored[o.Rel] = mx
 		obs.Steps = append(obs.Steps, st)
 	}
 	kc.WaitError = nil
 	// read every stored revision at the end (so that a later operation that disturbed an
 	// earlier record shows)
-	rels, err := cfg.Releases.History(c13Name)
-	if err != nil && len(rels) > 0 {
-		obs.Bad = "history: " + err.Error()
-	}
-	byVer := map[int]c13Rev{}
-	maxv := 0
-	for _, rl := range rels {
-		rv := c13Rev{Version: rl.Version, Config: vtree{}, Status: rl.Info.Status.String()}
-		if rl.Config != nil {
-			rv.Config = vtNorm(vtree(rl.Config)).(vtree)
-		}
-		m, err := c13ReadProbe(rl.Manifest)
+	for k := 0; k < c.nrel(); k++ {
+		byv, maxv, err := c13History(cfg, c13Names[k])
 		if err != nil {
-			obs.Bad = fmt.Sprintf("revision %d: %v", rl.Version, err)
+			obs.Bad = "history: " + err.Error()
 		}
-		rv.Rendered = m
-		byVer[rl.Version] = rv
-		if rl.Version > maxv {
-			maxv = rl.Version
+		revs := []c13Rev{}
+		for v := 1; v <= maxv; v++ {
+			rl, ok := byv[v]
+			if !ok {
+				obs.Bad = fmt.Sprintf("%s: revision %d missing from history", c13Names[k], v)
+				continue
+			}
+			rv := c13Rev{Version: v, Config: vtree{}, Status: rl.Status}
+			if rl.Config != nil {
+				rv.Config = vtNorm(vtree(rl.Config)).(vtree)
+			}
+			m, err := c13ReadProbe(rl.Manifest)
+			if err != nil {
+				obs.Bad = fmt.Sprintf("%s: revision %d: %v", c13Names[k], v, err)
+			}
+			rv.Rendered = m
+			revs = append(revs, rv)
 		}
-	}
-	for v := 1; v <= maxv; v++ {
-		rv, ok := byVer[v]
-		if !ok {
-			obs.Bad = fmt.Sprintf("revision %d missing from history", v)
-			continue
-		}
-		obs.Revs = append(obs.Revs, rv)
+		obs.Revs = append(obs.Revs, revs)
 	}
 	return obs
 }
@@ -474,30 +733,66 @@ func c13CoqOp(o c13Op) string {
 	return fmt.Sprintf("ORollback %d %s", o.Version, hx.CoqBool(o.Fails))
 }
 
+// c13Project: the operations of the chain that are about release k — each with the ORIGINAL
+// content of the values the caller supplied (a shared map object is resolved to what it held
+// when the case began: that is what the property text, the oracle and the value-semantic model
+// compute with) —, their steps, and their positions in the chain.
+func c13Project(c c13Case, obs c13Obs, k int) (ops []c13Op, steps []c13Step, idx []int) {
+	for i, o := range c.Ops {
+		if o.Rel != k {
+			continue
+		}
+		o.Vals = c.vals(o)
+		ops = append(ops, o)
+		if i < len(obs.Steps) {
+			steps = append(steps, obs.Steps[i])
+		}
+		idx = append(idx, i)
+	}
+	return
+}
+
 func (*c13) CoqCase(ci, oi any) string {
 	c, obs := ci.(c13Case), oi.(c13Obs)
-	ops := make([]string, len(c.Ops))
-	for i, o := range c.Ops {
-		ops[i] = c13CoqOp(o)
-	}
-	oks := make([]string, len(obs.Steps))
-	for i, s := range obs.Steps {
-		oks[i] = hx.CoqBool(s.OK)
-	}
-	if obs.Panic != "" || obs.Bad != "" {
-		// cannot agree with any model output: a panic or an unreadable probe is reported as a mismatch too
-		oks = append(oks, "false", "false", "false", "false", "false", "false", "false", "false")
-	}
-	revs := make([]string, len(obs.Revs))
-	for i, r := range obs.Revs {
-		st, known := map[string]string{"deployed": "SDeployed", "superseded": "SSuperseded", "failed": "SFailed"}[r.Status]
-		if !known {
-			st = "SFailed"
-			oks = append(oks, "false", "false", "false", "false", "false", "false", "false", "false") // a status outside the model: mismatch
+	var rels []string
+	for k := 0; k < c.nrel(); k++ {
+		pops, psteps, _ := c13Project(c, obs, k)
+		ops := make([]string, len(pops))
+		for i, o := range pops {
+			ops[i] = c13CoqOp(o)
 		}
-		revs[i] = fmt.Sprintf("mkObs %s %s %s", hx.CoqValMap(r.Config), hx.CoqValMap(r.Rendered), st)
+		oks := make([]string, len(psteps))
+		for i, s := range psteps {
+			oks[i] = hx.CoqBool(s.OK)
+		}
+		if obs.Panic != "" || obs.Bad != "" {
+			// cannot agree with any model output: a panic or an unreadable probe is reported as a mismatch too
+			oks = append(oks, "false", "false", "false", "false", "false", "false", "false", "false")
+		}
+		var orevs []c13Rev
+		if k < len(obs.Revs) {
+			orevs = obs.Revs[k]
+		}
+		revs := make([]string, len(orevs))
+		for i, r := range orevs {
+			st, known := map[string]string{"deployed": "SDeployed", "superseded": "SSuperseded", "failed": "SFailed"}[r.Status]
+			if !known {
+				st = "SFailed"
+				oks = append(oks, "false", "false", "false", "false", "false", "false", "false", "false") // a status outside the model: mismatch
+			}
+			revs[i] = fmt.Sprintf("mkObs %s %s %s", hx.CoqValMap(r.Config), hx.CoqValMap(r.Rendered), st)
+		}
+		rels = append(rels, fmt.Sprintf("%s %s %s", hx.CoqList(ops), hx.CoqList(oks), hx.CoqList(revs)))
 	}
-	return fmt.Sprintf("mkCase %s %s %s", hx.CoqList(ops), hx.CoqList(oks), hx.CoqList(revs))
+	if len(rels) == 1 {
+		return "mkCase " + rels[0]
+	}
+	// several releases: one (operations, results, stored revisions) triple per release; the
+	// model runs each release's operations on its own history (releases share nothing there)
+	for i := range rels {
+		rels[i] = "mkRel " + rels[i]
+	}
+	return "mkMulti " + hx.CoqList(rels)
 }
 
 func (*c13) Class(ci, oi any) string {
@@ -525,22 +820,43 @@ func (*c13) Class(ci, oi any) string {
 		}
 	}
 	lbl := strings.Join(ks, "+")
+	sub := false
 	for _, o := range c.Ops {
 		if o.Chart != nil && len(o.Chart.Deps) > 0 {
-			return "subcharts:" + lbl
+			sub = true
+			break
 		}
+	}
+	if len(c.Shared) > 0 {
+		// one values map object handed to several operations: by number of releases and by
+		// whether an overlaying upgrade (the one that could write into it) is among them
+		lbl = "shared-map"
+		if c.nrel() > 1 {
+			lbl += ",2-releases"
+		}
+		if flags["reuse"] || flags["reset-then-reuse"] {
+			lbl += ":overlay"
+		}
+	}
+	if sub {
+		return "subcharts:" + lbl
 	}
 	return lbl
 }
 
 func (*c13) NonTrivial(ci, oi any) bool {
 	c, obs := ci.(c13Case), oi.(c13Obs)
-	if obs.Panic != "" || len(obs.Revs) < 2 {
+	if obs.Panic != "" || len(obs.Revs) == 0 {
 		return false
 	}
-	for i, o := range c.Ops {
-		if i < len(obs.Steps) && obs.Steps[i].OK && (o.Kind == "rollback" || (o.Kind == "upgrade" && !o.Reset && (o.Reuse || o.RTR))) {
-			return true
+	for k := range obs.Revs {
+		if len(obs.Revs[k]) < 2 {
+			continue
+		}
+		for i, o := range c.Ops {
+			if o.Rel == k && i < len(obs.Steps) && obs.Steps[i].OK && (o.Kind == "rollback" || (o.Kind == "upgrade" && !o.Reset && (o.Reuse || o.RTR))) {
+				return true
+			}
 		}
 	}
 	return false
